@@ -50,8 +50,31 @@ func c14Pop(c *Ctx) {
 func c14RunHist(c *Ctx) {
 	r := c.R
 	m := NewISet()
-	for _, k := range genKeys(r, 1+r.Intn(2)) {
-		a := []string{"oneRun", "fewRuns", "manyShortRuns", "runsTouchEdges", "full", "fullMinusFew", "arr4096runs", "tiny"}[r.Intn(8)]
+	keys := genKeys(r, 1+r.Intn(2))
+	if r.Chance(0.7) {
+		keys = [][]uint64{{0}, {0, 1}, {1}}[r.Intn(3)] // low keys: the bound has no slack there
+	}
+	for _, k := range keys {
+		a := []string{"oneRun", "fewRuns", "manyShortRuns", "runsTouchEdges", "full", "fullMinusFew", "arr4096runs", "tiny", "singletonsAndOneLongRun", "singletonsAndOneLongRun"}[r.Intn(10)]
+		if a == "singletonsAndOneLongRun" {
+			// a run chunk that is only worth its form because of ONE long run at its upper (or lower) end
+			n := 3 + r.Intn(20)
+			l := 30 + r.Range(0, 400)
+			pos := r.Range(0, 100)
+			atTop := r.Chance(0.6)
+			if !atTop {
+				m.AddRange(k<<16|pos, k<<16|(pos+l))
+				pos += l + 3
+			}
+			for i := 0; i < n; i++ {
+				m.Add(k<<16 | pos)
+				pos += 2 + r.Range(0, 30)
+			}
+			if atTop {
+				m.AddRange(k<<16|pos, k<<16|(pos+l))
+			}
+			continue
+		}
 		for _, v := range genChunk(r, a) {
 			m.AddRange(k<<16|v.Lo, k<<16|v.Hi)
 		}
